@@ -2,3 +2,4 @@
 import DnaModel.Gen.Tables
 import DnaModel.Model.Seq
 import DnaModel.Model.Loc
+import DnaModel.Props.C18
